@@ -347,7 +347,7 @@ Proof.
     match goal with |- context[crashed ?a] => assert (P: R x a) by (apply f_set_quota_r, f_votes; exact Hs); destruct (crashed a) end; [exact P|].
     apply f_log. unfold meek_first_prefs. apply f_fold0.
     - intros y t eb Hy. destruct (crashed t); [exact Hy|]. destruct (erank eb); [apply f_crash; exact Hy|].
-      destruct (floordivv A _ _); [|apply f_crash; exact Hy]. cbv zeta. apply f_fold0; [intros; apply f_add_vote; assumption|exact Hy].
+      destruct (divv A _ _); [|apply f_crash; exact Hy]. cbv zeta. apply f_fold0; [intros; apply f_add_vote; assumption|exact Hy].
     - apply f_fold0; [|apply f_init_kfs; exact P]. intros y t b Hy. destruct (top_rank A b); [apply f_add_vote|]; exact Hy. }
   eapply t_seq with (M := InvF).
   { eapply t_post; [|apply (t_while est (@crashed A) InvF InvF)].
